@@ -135,9 +135,9 @@ def step_checked(rec, w, shard, hist_, ms, op):
         case = dict(shard=shard, history=[list(o) for o in hist_], op=list(op))
         for kind, sig, detail in problems:
             if kind.startswith("note:"):
-            rec.count(kind[5:])
-            continue
-        if kind.startswith("known:"):
+                rec.count(kind[5:])
+                continue
+            if kind.startswith("known:"):
                 tag = kind[6:]
                 if tag in ("f1", "f2", "f3", "f6"):
                     rec.violation(canon_sig(tag), "%s af=%s: %s | after %s" % (wk, shard["autoflush"], detail, ow.fmt_hist(hist_ + (op,))), case)
